@@ -46,9 +46,10 @@ Definition ape_nothing := mkFound None None None false.
 
 (* __find_metadata; `found` None: fall through to the next check *)
 Definition ape_find_metadata : P ape_found :=
-  r <~ pcatch (p_seek (-32) 2 ;;~ pret true) is_eio (fun _ => p_seek 0 2 ;;~ pret false) ;;
-  if negb r then pret ape_nothing
+  size0 <~ ape_get_size ;;
+  if size0 <? 32 then p_seek 0 2 ;;~ pret ape_nothing
   else
+    p_seek (-32) 2 ;;~
     b <~ p_read 8 ;;
     if list_eqb b ape_APETAGEX then
       p_seek (-8) 1 ;;~ pos <~ p_tell ;; pret (mkFound None (Some pos) (Some pos) false)
